@@ -180,6 +180,9 @@ class G:
             fv = P.fnvalue(P.const_fn(f"fac{self.n_fn}", self.pick(SCALARS)))
             self.n_fn += 1
             dflt = P.funapp(fv, factory=True)
+        elif r < 0.55 and depth > 0 and self.cfg.datasets and ty != "dispatch":
+            # a dataset as default: its body runs only when the key is absent and the value is needed
+            dflt = self.dataset(max(depth - 2, 0))
         dom = None
         if self.cfg.domains and self.chance(0.3 if self.cfg.raising else 0.12):
             c = self.rng.random()
